@@ -109,6 +109,21 @@ def finalState (wallet : Bool) : St → List Op → St
 def lookupBy (h : Nat → Nat) (order : Cache) (x : Nat) : Option Nat :=
   (order.find? (fun e => h e.1 == x)).map (·.1)
 
+/-- wallets whose directory may have been moved away by an `Archive` that reported a failure
+    (torn archival) since the node last loaded its cache from storage. -/
+def tornStep (t : List Nat) : Op → List Nat
+  | .arch w .failAfter => w :: t
+  | .restart => []
+  | _ => t
+
+/-- wallets that may have a file written by a registration that reported a failure (torn save,
+    failing wallet-ID function) since the node last loaded its cache from storage. -/
+def tornSaveStep (t : List Nat) : Op → List Nat
+  | .reg w _ _ .failAfter => w :: t
+  | .reg w _ _ .idFail => w :: t
+  | .restart => []
+  | _ => t
+
 /-! ## Monitor: the property on an observed trace (one `(result, snapshot)` per step).
 A snapshot lists, per known wallet, its signers `(memberIndex, keyMaterial)`. -/
 
@@ -121,7 +136,7 @@ def snapSigners (sn : Snap) (w : Nat) : List (Nat × Nat) :=
 
 def sameSet (a b : List (Nat × Nat)) : Bool := a.all b.contains && b.all a.contains
 
-def snapEq (a b : Snap) : Bool := [1, 2, 3].all fun w => sameSet (snapSigners a w) (snapSigners b w)
+def snapEq (a b : Snap) : Bool := [1, 2, 3, 4].all fun w => sameSet (snapSigners a w) (snapSigners b w)
 
 /-- what must be true of a step's snapshot `cur`, given the snapshot `prev` before the step and
     the one after it (`nextRestart`) when the next step is a restart:
@@ -131,7 +146,8 @@ def snapEq (a b : Snap) : Bool := [1, 2, 3].all fun w => sameSet (snapSigners a 
     a successfully archived wallet is unknown now and after a restart; a failed archival leaves
     the wallet as it was;
     a restart of a just-restarted node changes nothing. -/
-def stepOk (wallet : Bool) (op : Op) (res : Res) (prev cur : Snap) (nextRestart : Option Snap) : Bool :=
+def stepOk (wallet : Bool) (torn : List Nat) (op : Op) (res : Res) (prev cur : Snap)
+    (nextRestart : Option Snap) : Bool :=
   match op with
   | .reg w i s _ =>
     if res == .ok then
@@ -139,25 +155,31 @@ def stepOk (wallet : Bool) (op : Op) (res : Res) (prev cur : Snap) (nextRestart 
       (match nextRestart with | some n => (snapSigners n w).contains (i, s) | none => true)
     else if res == .eSave || res == .eId then sameSet (snapSigners cur w) (snapSigners prev w)
     else true
-  | .arch w _ =>
+  | .arch w f =>
+    -- an archival without any storage fault of a wallet the node knows (and whose directory was
+    -- not moved away by an earlier torn archival) succeeds and forgets the wallet
+    (if f == .none && !(snapSigners prev w).isEmpty && !torn.contains w then
+      (snapSigners cur w).isEmpty && (!wallet || res == .ok) else true) &&
     -- (the group registry's UnregisterStaleGroups reports nothing: only the wallet registry's
     -- `nil` error says that the wallet was archived)
-    if wallet && res == .ok then
+    (if wallet && res == .ok then
       (snapSigners cur w).isEmpty &&
       (match nextRestart with | some n => (snapSigners n w).isEmpty | none => true)
     else if wallet && (res == .eArch || res == .eNf) then
       -- a failed archival forgets nothing
       sameSet (snapSigners cur w) (snapSigners prev w)
-    else true
+    else true)
   | .restart =>
     match nextRestart with
     | some n => snapEq cur n
     | none => true
 
-def holdsTrace (wallet : Bool) (prev : Snap) : List Op → List (Res × Snap) → Bool
+def holdsTrace (wallet : Bool) (torn : List Nat) (prev : Snap) : List Op → List (Res × Snap) → Bool
   | op :: (Op.restart :: ops), (r, sn) :: ((r2, sn2) :: tr) =>
-    stepOk wallet op r prev sn (some sn2) && holdsTrace wallet sn (Op.restart :: ops) ((r2, sn2) :: tr)
-  | op :: ops, (r, sn) :: tr => stepOk wallet op r prev sn none && holdsTrace wallet sn ops tr
+    stepOk wallet torn op r prev sn (some sn2) &&
+      holdsTrace wallet (tornStep torn op) sn (Op.restart :: ops) ((r2, sn2) :: tr)
+  | op :: ops, (r, sn) :: tr =>
+    stepOk wallet torn op r prev sn none && holdsTrace wallet (tornStep torn op) sn ops tr
   | _, _ => true
 
 end KeepVerif.C38
